@@ -226,3 +226,25 @@ package labelmap
 //@   ensures present ==> has(mp, bv) && label == mp[bv] && has(mappedVersions, bv)
 //@   ensures present ==> (forall u dvid.VersionID :: has(mp, u) && has(mappedVersions, u) ==> mappedVersions[u] <= mappedVersions[bv])
 //@   ensures !present ==> label == 0
+
+// ---- point lookups (C08): which block a queried voxel lies in, and where in that block ----
+// For every signed coordinate the block is floor(p / size) and the in-block offset is p - block*size
+// (fdiv / fmod of /verif/specs/geom.spec, proved equal to floor and remainder over the integers) - the
+// same decomposition the voxel store uses, so a point lookup reads the voxel that a volume read returns.
+// ASSUMED (instance invariant established when the instance is created, not re-proved here): the block
+// size is positive in every dimension.
+//@ func Data.sortByBlockCoord
+//@   prop C08 C20
+//@   safety_off
+//@   modifies *
+//@   assume after "blockSize := d.BlockSize().(dvid.Point3d)": blockSize[0] > 0 && blockSize[1] > 0 && blockSize[2] > 0
+//@   assert at "i, found := blockIndex[bcoord]": blockSize[0] > 0 && blockSize[1] > 0 && blockSize[2] > 0 ==> len(bcoord) == 12 && be32(bcoord, 0) == zyx32(fdiv(pt[2], blockSize[2])) && be32(bcoord, 4) == zyx32(fdiv(pt[1], blockSize[1])) && be32(bcoord, 8) == zyx32(fdiv(pt[0], blockSize[0]))
+//@   assert at "i, found := blockIndex[bcoord]": blockSize[0] > 0 && blockSize[1] > 0 && blockSize[2] > 0 ==> bpt[0] == fmod(pt[0], blockSize[0]) && bpt[1] == fmod(pt[1], blockSize[1]) && bpt[2] == fmod(pt[2], blockSize[2])
+
+//@ func Data.partitionPoints
+//@   prop C08 C20
+//@   safety_off
+//@   modifies *
+//@   assume after "blockSize := d.BlockSize().(dvid.Point3d)": blockSize[0] > 0 && blockSize[1] > 0 && blockSize[2] > 0
+//@   assert at "ptsi, found := blockPts[bcoord]": blockSize[0] > 0 && blockSize[1] > 0 && blockSize[2] > 0 ==> len(bcoord) == 12 && be32(bcoord, 0) == zyx32(fdiv(pt[2], blockSize[2])) && be32(bcoord, 4) == zyx32(fdiv(pt[1], blockSize[1])) && be32(bcoord, 8) == zyx32(fdiv(pt[0], blockSize[0]))
+//@   assert at "ptsi, found := blockPts[bcoord]": blockSize[0] > 0 && blockSize[1] > 0 && blockSize[2] > 0 ==> bpt[0] == fmod(pt[0], blockSize[0]) && bpt[1] == fmod(pt[1], blockSize[1]) && bpt[2] == fmod(pt[2], blockSize[2])
